@@ -1,1 +1,312 @@
-(* Uper/Reader.v -- stub, to be filled *)
+(* L2 reader: model of `impl Reader for UperReader<Bits>` in src/rw/uper.rs — Scope::read_from_field,
+   read_bit_field_entry, scope_pushed/stashed, with_buffer, read_whole_sub_slice (whose
+   `mem::replace(&mut self.bits.len(), ..)` acts on a temporary and so does not narrow the window),
+   and every read_* method; the generated read_seq is the field walk over [TSeq]. *)
+From A1 Require Export Uper.Writer.
+Local Open Scope N_scope.
+
+Record rst := { r_src : src; r_scope : option scope }.
+Definition r_of_src (s : src) : rst := {| r_src := s; r_scope := None |}.
+Definition r_set_src (r : rst) (s : src) : rst := {| r_src := s; r_scope := r_scope r |}.
+Definition r_set_scope (r : rst) (sc : option scope) : rst := {| r_src := r_src r; r_scope := sc |}.
+
+(* lift an L1 reader *)
+Definition r_get {A} (r : rst) (f : src -> res (A * src)) : res (A * rst) :=
+  let! (a, s) := f (r_src r) in Ok (a, r_set_src r s).
+
+(* elements of sequence-of / fields are bounded by this many iterations in the model;
+   a larger count is the "unbounded work" outcome *)
+Definition LOOP_LIMIT : N := 16777216.
+
+(** Scope::read_from_field. The Rust function mutates the scope (and the cursor) before it may
+    fail, and read_sequence drops the error of its own entry (`let _ = ...`), so the model returns
+    the state together with either the Option<bool> or the error kind. *)
+Definition fres := (option bool + N)%type.
+Definition f_ok (ob : option bool) : fres := inl ob.
+Definition f_err (e : N) : fres := inr e.
+
+(* with_read_position_at(pos, read_bit) as a value: Err kinds as data, panics stay panics *)
+Definition bit_at (r : rst) (p : N) : res (bool + N) :=
+  match r_bit_at (r_src r) p with
+  | Ok b => Ok (inl b)
+  | Err e => Ok (inr e)
+  | Panic q => Panic q
+  end.
+
+Definition read_from_field_simple (r : rst) (sc : scope) (is_opt : bool) : res (fres * rst) :=
+  match sc with
+  | OptBitField a b =>
+      if b <=? a then Ok (f_ok (Some false), r)
+      else if is_opt then
+        let! x := bit_at r a in
+        let r' := r_set_scope r (Some (OptBitField (a + 1) b)) in
+        Ok (match x with inl bit => f_ok (Some bit) | inr e => f_err e end, r')
+      else Ok (f_ok None, r)
+  | AllBitField a b =>
+      if a <? b then
+        let! x := bit_at r a in
+        let r' := r_set_scope r (Some (AllBitField (a + 1) b)) in
+        Ok (match x with inl bit => f_ok (Some bit) | inr e => f_err e end, r')
+      else Ok (f_ok (Some false), r)
+  | ExtSeqEmpty => Ok (f_ok (Some false), r)
+  | ExtSeq _ _ _ _ => Panic P_OTHER
+  end.
+
+(* cursor after a failed read_normally_small_length (reads that fail do not advance) *)
+Definition pos_after_failed_len_unc (s : src) : N :=
+  match r_bit s with
+  | Ok (b1, s1) =>
+      if negb b1 then s_pos s1
+      else match r_bit s1 with
+           | Ok (_, s2) => s_pos s2
+           | _ => s_pos s1
+           end
+  | _ => s_pos s
+  end.
+Definition pos_after_failed_normally_small (m : mode) (s : src) : N :=
+  match r_bit s with
+  | Ok (big, s1) =>
+      if big then
+        match r_length_determinant_unc s1 with
+        | Ok (_, s2) => s_pos s2
+        | _ => pos_after_failed_len_unc s1
+        end
+      else s_pos s1
+  | _ => s_pos s
+  end.
+
+Definition read_from_field (m : mode) (r : rst) (sc : scope) (is_opt : bool) : res (fres * rst) :=
+  match sc with
+  | ExtSeq bit_pos opt calls n_ext =>
+      if calls =? 0 then
+        let! x := bit_at r bit_pos in
+        match x with
+        | inr e => Ok (f_err e, r)
+        | inl ext =>
+          if ext then
+            match r_normally_small m (r_src r) with
+            | Panic q => Panic q
+            | Err e =>
+                let s := r_src r in
+                let p := pos_after_failed_normally_small m s in
+                Ok (f_err e, r_set_src r (src_adv s (p - s_pos s) (skipn (N.to_nat (p - s_pos s)) (s_rest s))))
+            | Ok (n, s) =>
+                let r := r_set_src r s in
+                let! read_n := uadd m n 1 in
+                let start := s_pos (r_src r) in
+                let! stop := uadd m start n_ext in
+                let! skip := uadd m start read_n in
+                let r := r_set_src r (src_set_pos (r_src r) skip) in
+                let sc' := AllBitField start stop in
+                read_from_field_simple (r_set_scope r (Some sc')) sc' is_opt
+            end
+          else
+            read_from_field_simple (r_set_scope r (Some ExtSeqEmpty)) ExtSeqEmpty is_opt
+        end
+      else
+        let calls' := calls - 1 in
+        match opt with
+        | Some (a, b) =>
+            if is_opt then
+              let! x := bit_at r a in
+              let r' := r_set_scope r (Some (ExtSeq bit_pos (Some (a + 1, b)) calls' n_ext)) in
+              Ok (match x with inl bit => f_ok (Some bit) | inr e => f_err e end, r')
+            else Ok (f_ok None, r_set_scope r (Some (ExtSeq bit_pos opt calls' n_ext)))
+        | None => Ok (f_ok None, r_set_scope r (Some (ExtSeq bit_pos opt calls' n_ext)))
+        end
+  | _ => read_from_field_simple r sc is_opt
+  end.
+
+(* state and outcome of read_bit_field_entry *)
+Definition read_bit_field_entry_st (m : mode) (r : rst) (is_opt : bool) : res (fres * rst) :=
+  match r_scope r with
+  | Some sc => read_from_field m r sc is_opt
+  | None =>
+      if is_opt then
+        match r_bit (r_src r) with
+        | Ok (b, s) => Ok (f_ok (Some b), r_set_src r s)
+        | Err e => Ok (f_err e, r)
+        | Panic q => Panic q
+        end
+      else Ok (f_ok None, r)
+  end.
+
+(* read_bit_field_entry(is_opt)? *)
+Definition read_bit_field_entry (m : mode) (r : rst) (is_opt : bool) : res (option bool * rst) :=
+  let! (x, r') := read_bit_field_entry_st m r is_opt in
+  match x with inl ob => Ok (ob, r') | inr e => Err e end.
+
+Definition rscope_pushed {A} (m : mode) (r : rst) (sc : scope) (f : rst -> res (A * rst)) : res (A * rst) :=
+  let original := r_scope r in
+  let! (a, r') := f (r_set_scope r (Some sc)) in
+  if debug_asserts m && negb (match r_scope r' with Some s => scope_exhausted s | None => false end)
+  then Panic P_ASSERT
+  else Ok (a, r_set_scope r' original).
+
+Definition rscope_stashed {A} (r : rst) (f : rst -> res (A * rst)) : res (A * rst) :=
+  let original := r_scope r in
+  let! (a, r') := f (r_set_scope r None) in
+  Ok (a, r_set_scope r' original).
+
+(* read_whole_sub_slice(length_bytes, f): the window is not narrowed; on success the cursor jumps to the end *)
+Definition read_whole_sub_slice {A} (m : mode) (r : rst) (length_bytes : N) (f : rst -> res (A * rst)) : res (A * rst) :=
+  let! lb := umul m length_bytes BYTE_LEN in
+  let! write_position := uadd m (s_pos (r_src r)) lb in
+  let! (a, r') := f r in
+  Ok (a, r_set_src r' (src_set_pos (r_src r') write_position)).
+
+Definition rwith_buffer {A} (m : mode) (r : rst) (f : rst -> res (A * rst)) : res (A * rst) :=
+  if match r_scope r with Some s => encode_as_open_type_field s | None => false end then
+    let! (len, r) := r_get r (r_length_determinant m None None) in
+    read_whole_sub_slice m r len f
+  else f r.
+
+Definition read_len_ext (m : mode) (r : rst) (ext : bool) (lo hi : option N) : res (N * rst) :=
+  if ext then
+    let! (e, r) := r_get r r_bit in
+    if e then r_get r (r_length_determinant m None None)
+    else r_get r (r_length_determinant m lo hi)
+  else r_get r (r_length_determinant m lo hi).
+
+(* n times: read_bits_with_offset(&mut buffer[i..i+1], off) *)
+Fixpoint read_chars (n : nat) (width : N) (r : rst) (acc : list N) : res (list N * rst) :=
+  match n with
+  | O => Ok (frev acc, r)
+  | S n' =>
+      let! (bs, r) := r_get r (fun s => r_bits_into s 8 (8 - width) width) in
+      read_chars n' width r (val_of_bits bs :: acc)
+  end.
+
+Definition from_utf8 (bytes : list N) : res val :=
+  match utf8_decode bytes with Some cs => Ok (VStr cs) | None => Err E_UTF8 end.
+
+Fixpoint read_ty (m : mode) (t : ty) (r : rst) {struct t} : res (val * rst) :=
+  match t with
+  | TBool =>
+      let! (_, r) := read_bit_field_entry m r false in
+      rwith_buffer m r (fun r => let! (b, r) := r_get r r_bit in Ok (VBool b, r))
+  | TNull =>
+      let! (_, r) := read_bit_field_entry m r false in
+      rwith_buffer m r (fun r => Ok (VNull, r))
+  | TInt k lo hi ext =>
+      let! (_, r) := read_bit_field_entry m r false in
+      rwith_buffer m r (fun r =>
+        let! (unconstrained, r) :=
+          (if ext then r_get r r_bit else Ok (negb (is_some lo) && negb (is_some hi), r)) in
+        let! (z, r) :=
+          (if unconstrained then r_get r (r_unconstrained m)
+           else r_get r (r_constrained m (opt_or lo 0%Z) (opt_or hi I64_MAXz))) in
+        Ok (VInt (from_i64 k z), r))
+  | TStr Utf8 lo hi ext =>
+      let! (_, r) := read_bit_field_entry m r false in
+      rwith_buffer m r (fun r =>
+        let! (bs, r) := r_get r (r_octetstring m None None false) in
+        let! v := from_utf8 (bytes_of_bits bs) in Ok (v, r))
+  | TStr c lo hi ext =>
+      let! (_, r) := read_bit_field_entry m r false in
+      rwith_buffer m r (fun r =>
+        let! (len, r) := read_len_ext m r ext lo hi in
+        let! _ := alloc len in
+        if LOOP_LIMIT <? len then Panic P_UNBOUNDED else
+        let width := match c with Numeric => 4 | _ => 7 end in
+        let! (codes, r) := read_chars (N.to_nat len) width r [] in
+        let codes := match c with
+                     | Numeric => map (fun x => if x =? 0 then 32 else 32 + 15 + x) codes
+                     | _ => codes end in
+        let! v := from_utf8 codes in Ok (v, r))
+  | TOctets lo hi ext =>
+      let! (_, r) := read_bit_field_entry m r false in
+      rwith_buffer m r (fun r =>
+        let! (bs, r) := r_get r (r_octetstring m lo hi ext) in Ok (VOctets (bytes_of_bits bs), r))
+  | TBitStr lo hi ext =>
+      let! (_, r) := read_bit_field_entry m r false in
+      rwith_buffer m r (fun r =>
+        let! (x, r) := r_get r (r_bitstring m lo hi ext) in
+        let '(bs, bl, buflen) := x in
+        let bytes := bytes_of_bits bs in
+        Ok (VBits (bytes ++ repeat 0 (N.to_nat buflen - length bytes)) bl, r))
+  | TListOf e lo hi ext =>
+      let! (_, r) := read_bit_field_entry m r false in
+      rwith_buffer m r (fun r =>
+        let! (len, r) := read_len_ext m r ext lo hi in
+        if 0 <? len then
+          rscope_stashed r (fun r =>
+            let! _ := alloc len in
+            if LOOP_LIMIT <? len then Panic P_UNBOUNDED else
+            (fix elems (n : nat) (r : rst) (acc : list val) : res (val * rst) :=
+               match n with
+               | O => Ok (VList (frev acc), r)
+               | S n' => let! (x, r) := read_ty m e r in elems n' r (x :: acc)
+               end) (N.to_nat len) r [])
+        else Ok (VList [], r))
+  | TSeq fs std_opt field_count ext_after =>
+      (* `let _ = self.read_bit_field_entry(false);` -- the result, even an error, is dropped *)
+      let! (_, r) := read_bit_field_entry_st m r false in
+      rwith_buffer m r (fun r =>
+        let bit_pos := s_pos (r_src r) in
+        let! (ext, r) :=
+          (match ext_after with
+           | Some _ => r_get r r_bit
+           | None => Ok (false, r)
+           end) in
+        let! rem := src_remaining m (r_src r) in
+        if rem <? std_opt then Err E_END_OF_STREAM else
+        let start := s_pos (r_src r) in
+        let! stop := uadd m start std_opt in
+        let r := r_set_src r (src_set_pos (r_src r) stop) in
+        let walk (r : rst) : res (val * rst) :=
+          (fix fields (fs : list (fkind * ty)) (r : rst) (acc : list (option val)) : res (val * rst) :=
+             match fs with
+             | [] => Ok (VSeq (frev acc), r)
+             | (FReq, ft) :: fs' =>
+                 let! (x, r) := read_ty m ft r in fields fs' r (Some x :: acc)
+             | (FOpt, ft) :: fs' =>
+                 let! (ob, r) := read_bit_field_entry m r true in
+                 match ob with
+                 | None => Panic P_UNWRAP
+                 | Some true =>
+                     let! (x, r) := rwith_buffer m r (fun r => rscope_stashed r (fun r => read_ty m ft r)) in
+                     fields fs' r (Some x :: acc)
+                 | Some false => fields fs' r (None :: acc)
+                 end
+             | (FDef d, ft) :: fs' =>
+                 let! (ob, r) := read_bit_field_entry m r true in
+                 match ob with
+                 | None => Panic P_UNWRAP
+                 | Some true =>
+                     let! (x, r) := rscope_stashed r (fun r => read_ty m ft r) in
+                     fields fs' r (Some x :: acc)
+                 | Some false => fields fs' r (Some d :: acc)
+                 end
+             end) fs r [] in
+        match ext_after, ext with
+        | Some ea, true =>
+            let! nx := usub m field_count (ea + 1) in
+            rscope_pushed m r (ExtSeq bit_pos (Some (start, stop)) (ea + 1) nx) walk
+        | _, _ => rscope_pushed m r (OptBitField start stop) walk
+        end)
+  | TChoice alts std ext =>
+      let! (_, r) := read_bit_field_entry m r false in
+      rscope_stashed r (fun r =>
+        let! (index, r) := r_get r (r_enumeration_index m std ext) in
+        let content (r : rst) : res (option val * rst) :=
+          (fix pick (alts : list ty) (i : nat) : res (option val * rst) :=
+             match alts, i with
+             | a :: _, O => let! (x, r) := read_ty m a r in Ok (Some (VChoice index x), r)
+             | _ :: rest, S i' => pick rest i'
+             | [], _ => Ok (None, r)
+             end) alts (N.to_nat index) in
+        let! (ov, r) :=
+          (if std <=? index then
+             let! (length, r) := r_get r (r_length_determinant m None None) in
+             read_whole_sub_slice m r length content
+           else content r) in
+        match ov with
+        | Some v => Ok (v, r)
+        | None => Err E_INVALID_CHOICE
+        end)
+  | TEnum variant_count std ext =>
+      let! (_, r) := read_bit_field_entry m r false in
+      let! (index, r) := rwith_buffer m r (fun r => r_get r (r_enumeration_index m std ext)) in
+      if index <? variant_count then Ok (VEnum index, r) else Err E_INVALID_CHOICE
+  end.
